@@ -103,8 +103,15 @@ func (f *Fixture) Close() {
 	f.mu.Lock()
 	cl := append([]*Client(nil), f.clients...)
 	f.mu.Unlock()
-	for _, c := range cl {
-		c.Drop()
+	// most recently accepted first, one at a time: the order in which the teamserver's
+	// ClientClose is known to cope with (cleanup must not be what kills the process)
+	for i := len(cl) - 1; i >= 0; i-- {
+		if cl[i].Closed() {
+			continue
+		}
+		n := CountGoroutines(HandleConnFrame)
+		cl[i].Drop()
+		WaitGoroutines(HandleConnFrame, n-1)
 	}
 	Quiesce()
 	for _, l := range f.TS.Listeners {
@@ -518,6 +525,16 @@ func (c *Client) Leave(abrupt bool) {
 	c.conn.Close()
 	<-c.done
 }
+
+// Closed reports whether Leave was called.
+func (c *Client) Closed() bool {
+	c.mu.Lock()
+	defer c.mu.Unlock()
+	return c.closed
+}
+
+// HandleConnFrame names the per-connection goroutine of the service endpoint.
+const HandleConnFrame = "service.(*Service).handleConnection"
 
 // Drop is Leave for cleanup.
 func (c *Client) Drop() { c.Leave(true) }
